@@ -50,6 +50,11 @@ def apply_impl(objs, op):
             objs[op[1]].add(*[g(objs, x) for x in op[2]], override_parent=op[3])
         elif kind == "addlist":
             objs[op[1]].add([g(objs, x) for x in op[2]], override_parent=op[3])
+        elif kind == "addlive":   # the LIVE list a getter of another (or the same) collection returns, handed over as it is
+            objs[op[1]].add(getattr(objs[op[2]], op[3]), override_parent=op[4])
+        elif kind == "ctorlive":
+            res = magpy.Collection(getattr(objs[op[1]], op[2]), override_parent=op[3])
+            extra.append(res)
         elif kind == "remove":
             objs[op[1]].remove(*[g(objs, x) for x in op[2]], recursive=op[3], errors=op[4])
         elif kind == "set":
@@ -267,6 +272,12 @@ def model_expect(f, op):
         if len(set(op[2])) != len(op[2]):
             return None  # duplicate arguments: documented semantics are silent
         return m if m.add(op[1], op[2], op[3]) else "reject"
+    if kind == "addlive":
+        want = {"children": (SRC, SENS, COLL), "sources": (SRC,), "sensors": (SENS,), "collections": (COLL,)}[op[3]]
+        lst = [x for x in m.children[op[2]] if KIND[x] in want]
+        if not lst:
+            return None
+        return m if m.add(op[1], lst, op[4]) else "reject"
     if kind == "remove":
         if op[4] not in ("raise", "ignore"):
             return None
@@ -308,6 +319,12 @@ def alphabet(names, tier_full=True):
         ops.append(("add", c, (names[0], "BAD"), False))
         ops.append(("add", c, (names[0], "BAD"), True))
         ops.append(("addlist", c, (names[0], names[1]), False))
+        for c2 in colls:
+            for view in ("children", "sources", "sensors", "collections"):
+                for ov in (False, True):
+                    ops.append(("addlive", c, c2, view, ov))
+        for view in ("children", "sources"):
+            ops.append(("ctorlive", c, view, True))
         for o in names:
             for rec in (True, False):
                 for er in ("raise", "ignore"):
